@@ -90,6 +90,12 @@ func (t *TransactionManager) Cancel(ctx context.Context, id string) error {
 
 	_, err = t.rollbacker.TransactionRollback(ctx, rollbacktransAction, false)
 	if err != nil {
+		// the transaction is still unresolved and GetRollbackTransaction stopped its
+		// rollback timer: start it again, otherwise a client that does not repeat the
+		// cancel leaves the transaction registered forever
+		if terr := t.transaction.StartRollbackTimer(); terr != nil {
+			return errors.Join(err, terr)
+		}
 		return err
 	}
 	return t.CleanupTransaction(id)
